@@ -15,7 +15,8 @@ use serde_json::json;
 #[derive(Clone, Debug, Serialize, Deserialize)]
 pub struct Case {
     /// 0 DynSizedStructure<DummyTestHeader>, 1 DummyDstTag,
-    /// 2 DynSizedStructure<TagHeader>, 3 DynSizedStructure<HeaderTagHeader>
+    /// 2 DynSizedStructure<TagHeader>, 3 DynSizedStructure<HeaderTagHeader>,
+    /// 4 DynSizedStructure<BootInformationHeader>, 5 DynSizedStructure<Multiboot2BasicHeader>
     pub target: u8,
     pub slices: Vec<Hex>,
     pub typ: u32,
@@ -43,6 +44,11 @@ fn check_box<T: MaybeDynSized<Metadata = usize> + ?Sized>(hdr: T::Header, hdr_by
     let bytes = boxed.as_bytes().to_vec();
     let mut want_bytes = hdr_bytes_but_size.to_vec();
     put32(&mut want_bytes, size_off, total as u32);
+    if hsz == 16 {
+        // Multiboot2 basic header: the checksum follows the length
+        let (m, a) = (le32(&want_bytes, 0), le32(&want_bytes, 4));
+        put32(&mut want_bytes, 12, mb2_model::walk::model_checksum(m, a, total as u32));
+    }
     for s in slices {
         want_bytes.extend_from_slice(s);
     }
@@ -84,7 +90,7 @@ pub fn eval(c: &Case, obs: &mut Obs) -> Result<(), String> {
         obs.nontrivial(fnv(format!("{}{:?}", c.target, c.slices).as_bytes()));
         obs.sample(json!({"target": c.target, "slice_lengths": slices.iter().map(|s| s.len()).collect::<Vec<_>>()}));
     }
-    let r = mb2_model::panics::catch(|| match c.target % 4 {
+    let r = mb2_model::panics::catch(|| match c.target % 6 {
         0 => {
             let mut hb = vec![0u8; 8];
             put32(&mut hb, 0, c.typ);
@@ -99,6 +105,19 @@ pub fn eval(c: &Case, obs: &mut Obs) -> Result<(), String> {
             let mut hb = vec![0u8; 8];
             put32(&mut hb, 0, c.typ);
             check_box::<DynSizedStructure<m::TagHeader>>(m::TagHeader::new(m::TagType::from(c.typ), 77), &hb, 4, &slices)
+        }
+        4 => {
+            // the boot-information header itself (obtained from a built structure)
+            let h = *m::Builder::new().build().header();
+            check_box::<DynSizedStructure<m::BootInformationHeader>>(h, &[0u8; 8], 0, &slices)
+        }
+        5 => {
+            let arch = if c.typ & 1 == 0 { h::HeaderTagISA::I386 } else { h::HeaderTagISA::MIPS32 };
+            let hd = *h::Builder::new(arch).build().header();
+            let mut hb = vec![0u8; 16];
+            put32(&mut hb, 0, mb2_model::walk::HDR_MAGIC);
+            put32(&mut hb, 4, if c.typ & 1 == 0 { 0 } else { 4 });
+            check_box::<DynSizedStructure<h::Multiboot2BasicHeader>>(hd, &hb, 8, &slices)
         }
         _ => {
             let mut hb = vec![0u8; 8];
@@ -138,7 +157,7 @@ fn enumerate(ctx: &Ctx) -> Box<dyn Iterator<Item = Case>> {
         }
     }
     let it = comps.into_iter().enumerate().flat_map(|(i, lens)| {
-        (0..4u8).map(move |target| {
+        (0..6u8).map(move |target| {
             let mut off = 0;
             let slices = lens
                 .iter()
@@ -155,7 +174,7 @@ fn enumerate(ctx: &Ctx) -> Box<dyn Iterator<Item = Case>> {
 }
 
 fn strategy(_: &Ctx) -> BoxedStrategy<Case> {
-    (0u8..4, proptest::collection::vec(proptest::collection::vec(any::<u8>(), 0..=60), 0..=6), any::<u32>())
+    (0u8..6, proptest::collection::vec(proptest::collection::vec(any::<u8>(), 0..=60), 0..=6), any::<u32>())
         .prop_map(|(target, s, typ)| Case { target, slices: s.into_iter().map(Hex).collect(), typ })
         .boxed()
 }
@@ -230,7 +249,7 @@ pub fn subs() -> Vec<Box<dyn Sub>> {
     vec![
         Box::new(PropSub::<Case> {
             name: "new_boxed",
-            rule: "new_boxed::<T>(header, slices) for T in {DynSizedStructure<DummyTestHeader>, DummyDstTag, DynSizedStructure<TagHeader>, DynSizedStructure<HeaderTagHeader>} under a recording global allocator. Enumerated completely: every composition of total length 0..=12 (thorough 17) into 0..=4 slices (empty slices allowed) x 4 targets; generated: up to 6 slices of up to 60 random bytes. Oracle: exactly one alloc(size = r8(header + sum), align 8) whose pointer is the Box; header size word == header + sum; bytes after the header == concatenation; size_of_val == r8(total); clone_dyn equal up to the size with one allocation of the same layout; drop = exactly one dealloc with the same pointer and layout (for the box and for the clone). Non-trivial = total not a multiple of 8, an empty slice, or >=3 slices; distinct by (target, slices)",
+            rule: "new_boxed::<T>(header, slices) for T in {DynSizedStructure<DummyTestHeader>, DummyDstTag, DynSizedStructure<TagHeader>, DynSizedStructure<HeaderTagHeader>, DynSizedStructure<BootInformationHeader>, DynSizedStructure<Multiboot2BasicHeader>} under a recording global allocator. Enumerated completely: every composition of total length 0..=12 (thorough 17) into 0..=4 slices (empty slices allowed) x 6 targets; generated: up to 6 slices of up to 60 random bytes. Oracle: exactly one alloc(size = r8(header + sum), align 8) whose pointer is the Box; header size word == header + sum; bytes after the header == concatenation; size_of_val == r8(total); clone_dyn equal up to the size with one allocation of the same layout; drop = exactly one dealloc with the same pointer and layout (for the box and for the clone). Non-trivial = total not a multiple of 8, an empty slice, or >=3 slices; distinct by (target, slices)",
             profiles: Profiles::Both,
             quick: 30000,
             thorough: 2000000,
